@@ -878,6 +878,11 @@ func (c *Compiler) implementsMarshalText(typ *runtime.Type) bool {
 	if typ.Kind() != reflect.Ptr {
 		return true
 	}
+	if c.implementsMarshalJSONType(typ) {
+		// *T has MarshalText of its own, but T has MarshalJSON: MarshalJSON wins after the
+		// dereference
+		return false
+	}
 	// type kind is reflect.Ptr
 	if !typ.Elem().Implements(marshalTextType) {
 		return true
@@ -911,6 +916,10 @@ func (c *Compiler) isPtrMarshalJSONType(typ *runtime.Type) bool {
 }
 
 func (c *Compiler) isPtrMarshalTextType(typ *runtime.Type) bool {
+	if c.implementsMarshalJSONType(typ) {
+		// MarshalJSON on the value wins over MarshalText on the pointer
+		return false
+	}
 	return !typ.Implements(marshalTextType) && runtime.PtrTo(typ).Implements(marshalTextType)
 }
 
